@@ -28,15 +28,19 @@ def fmt12(groups, length_override=None, ngroups_override=None):
     return struct.pack('>HHIII', 12, 0, ln, 0, n) + body
 
 
-def cmap_table(subs):
-    """subs: list of (platform, encoding, bytes)"""
+def cmap_table(subs, data_order=None):
+    """subs: list of (platform, encoding, bytes) in record order; data_order: the order in which the subtables' bytes are stored (a
+    permutation of range(len(subs)); the records stay sorted by platform / encoding as the format requires)"""
     n = len(subs)
     off = 4 + 8 * n
+    order = list(data_order) if data_order is not None else list(range(n))
+    where, body = {}, b''
+    for k in order:
+        where[k] = off + len(body)
+        body += subs[k][2]
     hdr = struct.pack('>HH', 0, n)
-    body = b''
-    for p, e, b in subs:
-        hdr += struct.pack('>HHI', p, e, off + len(body))
-        body += b
+    for k, (p, e, b) in enumerate(subs):
+        hdr += struct.pack('>HHI', p, e, where[k])
     return hdr + body
 
 
